@@ -97,7 +97,7 @@ def check_insert_is_ghost(ins, where):
 
 def apply_rewrites(text, required, optional, log, fnq):
     mask = rs.code_mask(text)
-    for (lst, must) in ((required, True), (optional, False)):
+    for (lst, must) in ((required, False), (optional, False)):   # anchors that vanished are skipped: the verifier then judges the code as it is
         for (frm, to, _allf) in lst:
             cnt = 0
             start = 0
@@ -254,13 +254,26 @@ def gen_fn(out, unit, f, sf, meta, probe):
     loops = rs.find_loops(body, bmask)
     used = set()
     for ls in f.loops:
-        if ls.ordinal < 1 or ls.ordinal > len(loops):
-            raise GenError('%s: loop %d not found (function has %d loops)' % (fnq, ls.ordinal, len(loops)))
-        kw, lb = loops[ls.ordinal - 1]
+        # locate the loop: by header text first (robust against loops added/removed before it), else by ordinal
+        cand = None
+        if ls.header_re:
+            hits = [k for k, (kw_, lb_) in enumerate(loops) if re.search(ls.header_re, rs.norm_ws(body[kw_:lb_]))]
+            same = [k for k in hits if k == ls.ordinal - 1]
+            if same:
+                cand = same[0]
+            elif len(hits) == 1:
+                cand = hits[0]
+        elif 1 <= ls.ordinal <= len(loops):
+            cand = ls.ordinal - 1
+        if cand is None or (cand + 1) in used:
+            # the contracted loop is gone: its contract is dropped and the function's own
+            # postconditions decide (an un-contracted loop that remains makes Verus stop -> exit 2)
+            meta['dropped_loop_contracts'].append({'fn': fnq, 'loop': ls.ordinal, 'header_re': ls.header_re})
+            continue
+        kw, lb = loops[cand]
         hdr = rs.norm_ws(body[kw:lb])
-        if ls.header_re and not re.search(ls.header_re, hdr):
-            raise GenError('%s: loop %d header drift: %r does not match %r' % (fnq, ls.ordinal, hdr, ls.header_re))
-        used.add(ls.ordinal)
+        ls_ord_eff = cand + 1
+        used.add(ls_ord_eff)
         finfo['loops'].append({'ordinal': ls.ordinal, 'header': hdr, 'src_line': body_line0 + body.count('\n', 0, kw)})
         tmp = Out()
         if ls.invariant_except_break:
@@ -289,11 +302,15 @@ def gen_fn(out, unit, f, sf, meta, probe):
                 raise GenError('%s: loop %d is not a for loop' % (fnq, ls.ordinal))
             edits.append((kw + len(m.group(1)), 1, 'text', ls.iter + ': ', None))
             meta['rewrites'].append({'fn': fnq, 'rule': 'R9', 'from': rs.norm_ws(hdr_txt), 'to': 'for .. in %s: ..' % ls.iter, 'count': 1})
-    for ins in f.inserts:
+    for hk, ins in enumerate(f.inserts):
         check_insert_is_ghost(ins, fnq)
         tmp = Out()
+        hid = '%s.hint%d' % (fnq, hk + 1)
+        hprops = ins.props if ins.props is not None else default_props
+        if any(re.search(r'\bassert\b', l) for l in ins.text):
+            ci[hid] = {'fn': fnq, 'kind': 'proof', 'props': hprops, 'text': 'inserted ghost assertion(s): ' + ' '.join(' '.join(ins.text).split())[:200]}
         for l in ins.text:
-            tmp.add('        ' + l.rstrip(), {'kind': 'proof', 'fn': fnq})
+            tmp.add('        ' + l.rstrip(), {'kind': 'proof', 'fn': fnq, 'clause': hid, 'props': hprops})
         if ins.where == 'start':
             edits.append((1, 2, 'insert', tmp, None))
             continue
@@ -430,7 +447,7 @@ def copy_item(out, sf, kind, name, mode, meta):
 
 def generate(unit, repo, probe=False):
     """Returns (text, tags, meta)."""
-    meta = {'unit': unit.name, 'repo': repo, 'rewrites': [], 'functions': [], 'clauses': {}, 'items': [], 'probes': [], 'lemmas': []}
+    meta = {'unit': unit.name, 'repo': repo, 'rewrites': [], 'functions': [], 'clauses': {}, 'items': [], 'probes': [], 'lemmas': [], 'dropped_loop_contracts': []}
     out = Out()
     for l in unit.crate_attrs:
         out.add(l, {'kind': 'prelude'})
